@@ -106,7 +106,13 @@ def nontrivial(run):
     return len(set(names)) >= 2
 
 
+# many variables (the name set grows through several table sizes), wide n-ary nodes, deeper nesting
+BIG = dict(BASE, arity=[3, 5, 8, 8, 12], n_ord=(6, 11), n_nodes=(30, 60), max_depth=(4, 9), n_trip=[1, 2, 3])
+
+
 def gen_run(rng, idx):
+    if idx % 50 == 31:
+        return gen.gen_scenario(rng, BIG)
     if idx % 250 == 113:
         return gen.gen_budget(rng)       # medium-size two-variable input, several hundred rewrite steps per partial
     return gen.gen_scenario(rng, BASE)
